@@ -11,7 +11,7 @@ COQ_CASE_TYPE = "case08"
 SHARD = 300
 RULE = ("segments whose endpoints are drawn from all 9x9 region pairs around the rectangle (inside, beyond one edge, beyond a corner, exactly on an edge / corner), "
         "on small integer, half-integer, random rational, large (1e15) and tiny (2^-30) grids; degenerate (zero-length, vertical, horizontal) segments, "
-        "zero-area rectangles; float segments nearly parallel to an edge with 0-3 ulps of extent across it; arguments as nested lists or nested tuples, and (lists) the same segment object clipped twice; each case is run on Fractions (compared exactly with the model and the exact spec) and on floats (judged by the sandwich checker "
+        "zero-area rectangles; the same shapes scaled to 2^+-520 .. 2^+-1000; float segments nearly parallel to an edge with 0-3 ulps of extent across it; arguments as nested lists or nested tuples, and (lists) the same segment object clipped twice; each case is run on Fractions (compared exactly with the model and the exact spec) and on floats (judged by the sandwich checker "
         "with eps = 1e-9 x coordinate scale); non-trivial = at least one endpoint outside the rectangle")
 TRUSTED = ["python Fraction arithmetic = exact rational arithmetic", "the float judgement (sandwich checker in Corr/C08.v): its exact reference interval is proved correct (C08_reference_interval); the eps-arithmetic around it is an executable specification"]
 ASSUMPTIONS = ["finite coordinates; xmin <= xmax and ymin <= ymax"]
@@ -66,6 +66,17 @@ def generate(rng, tier):
         if _passes(seg, (xmin, xmax, ymin, ymax)) >= 4:
             want -= 1
             cases.append({"seg": [F(v) for v in seg], "rect": [F(xmin), F(xmax), F(ymin), F(ymax)], "exact": False, "family": "precision-limit/through-corner", "style": 0})
+    # the same shapes at the ends of the double range (coordinates of 2^+-520 .. 2^+-1000: products of two coordinates overflow or
+    # underflow, quotients do not): clipping is scale-free, the answer must scale with the input
+    for _ in range(12 if tier == "quick" else 600):
+        k = rng.choice([520, 600, 900, 1000, -520, -600, -900, -1000, 511, -537])
+        sc = F(2) ** k if k > 0 else F(1, 2 ** (-k))
+        xmin, ymin = rng.randint(-5, 5), rng.randint(-5, 5); xmax, ymax = xmin + rng.choice([1, 2, 8, 10]), ymin + rng.choice([1, 2, 5, 10])
+        r1 = (rng.choice([-1, 0, 1]), rng.choice([-1, 0, 1])); r2 = (rng.choice([-1, 0, 1]), rng.choice([-1, 0, 1]))
+        x1 = _coord(rng, F(xmin), F(xmax), F(1), r1[0]); y1 = _coord(rng, F(ymin), F(ymax), F(1), r1[1])
+        x2 = _coord(rng, F(xmin), F(xmax), F(1), r2[0]); y2 = _coord(rng, F(ymin), F(ymax), F(1), r2[1])
+        cases.append({"seg": [v * sc for v in (x1, y1, x2, y2)], "rect": [F(v) * sc for v in (xmin, xmax, ymin, ymax)], "exact": False,
+                      "family": "extreme-scale/2^%d" % k, "style": rng.choice([0, 1, 2])})
     # float segments nearly parallel to an edge of the rectangle, 0-3 ulps of extent across it, lying on / straddling / next to that edge
     # and leaving the rectangle along it: whatever formula computes the new vertex, it must stay on the input segment
     import math
